@@ -32,6 +32,42 @@ PAIRS = {
 }
 
 
+def _lossless(frm, to):
+    """Is `x as to` the identity on values for every x of type frm?"""
+    from ..sim import _ty_range
+    fl = {"f32": 24, "f64": 53}
+    a, b = _ty_range(frm), _ty_range(to)
+    if frm in fl and to in fl:
+        return fl[to] >= fl[frm]
+    if a is not None and b is not None and frm != "char" and to != "char":
+        return b[0] <= a[0] and a[1] <= b[1]
+    if a is not None and to in fl:
+        return max(abs(a[0]), abs(a[1])) <= (1 << fl[to])
+    return False
+
+
+def widen(r2, serde):
+    """Integer / float serializer methods store the number they are given: any `as` conversion on the way is one
+    that cannot change the value (i32 -> i64, u32 -> u64, f32 -> f64), never a wrapping or rounding one."""
+    nw = 0
+    for f in serde.fns:
+        if f.path.startswith(ss.SER + "serialize_") and re.search(r"serialize_[iuf]\d+$", f.path):
+            nw += 1
+            lossy = []
+            for b in f.blocks:
+                for s in b["stmts"]:
+                    if s["k"] == "assign" and s["rv"]["k"] == "cast" and (
+                            s["rv"]["ck"].startswith("IntToInt") or s["rv"]["ck"].startswith("IntToFloat")
+                            or s["rv"]["ck"].startswith("FloatToInt") or s["rv"]["ck"].startswith("FloatToFloat")):
+                        if not _lossless(s["rv"]["from"], s["rv"]["to"]):
+                            lossy.append("%s as %s" % (s["rv"]["from"], s["rv"]["to"]))
+            if lossy:
+                r2.violation("serde_lexpr::" + f.path, "as-cast", "%s converts with `%s`, which does not keep every value" % (f.path, lossy[0]), f.loc())
+            else:
+                r2.ok("%s: value-preserving widening only" % f.path, f)
+    r2.floor("numeric-serializers", nw)
+
+
 def borrow_and_newtype(ctx, serde, lexpr, acc):
     from .. import sim
     from ..sim import Adt
@@ -244,6 +280,12 @@ def run(ctx):
     from . import c05
     c05.int_boundary(ctx.rule("R-INT-BOUNDARY", "parse_num_tail stores boundary magnitudes as the exact integer: "
                                                 "[-2^63, 2^64-1] stays an integer, beyond that a float"), lexpr)
+    # ... and every string the default printer writes is read back as the same string (shared with C01)
+    from .. import roundtrip
+    re_ = ctx.rule("R-ESC-R6RS", "string escapes written by the default printer are read back as the same byte (256 bytes)")
+    n_esc = roundtrip.string_escapes(re_, lexpr, "r6rs")
+    if n_esc is not None:
+        re_.floor("escaped-bytes", n_esc)
     ra = ctx.rule("R-ARITY", "every collector method records exactly one element / entry on each successful path "
                             "(a field or element that is skipped cannot be deserialized again)")
     na = 0
@@ -264,22 +306,7 @@ def run(ctx):
     ra.floor("collector-methods", na)
     r2 = ctx.rule("R-WIDEN", "numeric serializer methods widen losslessly; number representations reach the visitor "
                              "method of their payload type")
-    nw = 0
-    for f in serde.fns:
-        if f.path.startswith(ss.SER + "serialize_") and re.search(r"serialize_[iuf]\d+$", f.path):
-            nw += 1
-            lossy = []
-            for b in f.blocks:
-                for s in b["stmts"]:
-                    if s["k"] == "assign" and s["rv"]["k"] == "cast" and (
-                            s["rv"]["ck"].startswith("IntToInt") or s["rv"]["ck"].startswith("IntToFloat")
-                            or s["rv"]["ck"].startswith("FloatToInt") or s["rv"]["ck"].startswith("FloatToFloat")):
-                        lossy.append("%s as %s" % (s["rv"]["from"], s["rv"]["to"]))
-            if lossy:
-                r2.violation("serde_lexpr::" + f.path, "as-cast", "%s converts with `%s` instead of From" % (f.path, lossy[0]), f.loc())
-            else:
-                r2.ok("%s: From-widening only" % f.path, f)
-    r2.floor("numeric-serializers", nw)
+    widen(r2, serde)
     want = {"Number(PosInt)": "visit_u64", "Number(NegInt)": "visit_i64", "Number(Float)": "visit_f64"}
     for m, a in sorted(acc.items()):
         if not (re.match(r"deserialize_[iuf]\d+$", m) or m == "deserialize_any"):
